@@ -474,4 +474,5 @@ func runC07(c *explore.Ctx) {
 			}
 		}
 	}
+	zooEach(c, true, func(idx int64, z *zooSeg) { zooDocValues(c, idx, z) })
 }
